@@ -83,9 +83,11 @@ func (n rnode) build(path string, depth, mmode int) any {
 		if wantMutex(mmode, depth) {
 			s.SetMutex()
 		}
+		var vals []any
 		for i, k := range n.Kids {
-			s.Push(k.build(fmt.Sprintf("%s.%d", path, i), depth+1, mmode))
+			vals = append(vals, k.build(fmt.Sprintf("%s.%d", path, i), depth+1, mmode))
 		}
+		fill(s, vals, fillMode(n.String()+path))
 		if n.T == "A" {
 			return StackAlias(s)
 		}
